@@ -10,7 +10,10 @@ META = {'title': 'A playing tape presents each TAP block as the standard loader 
  'assumptions': ['the Lean model ZxVerif/Model/Tape.lean is a hand transcription; its agreement with the Rust code is '
                  'checked by differential execution on every run (exact edge times under seeded step schedules)',
                  'schedules: every call of process_clocks passes 1..16 T-states (the machine issues at most 8 at a time); '
-                 'the theorems are for all such schedules, the correspondence samples five schedule families',
+                 'the theorems are for all such schedules, the component correspondence samples five schedule families; that '
+                 'the real machine keeps this hypothesis whatever the CPU executes (HALT, block instructions, loops, '
+                 'interrupts, contended code) is checked by the system-level EAR layer: waveform sampled once per '
+                 'emulated instruction, tolerance widened by exactly the sampling interval (proved sound)',
                  'the final clause (the ROM loader loads any tape as fast loading does) is carried by the threshold-decoder '
                  'theorem plus execution of the real 48K ROM against the playing tape for a sample of small tapes; the '
                  "ROM's own edge-timing loop is not modelled",
@@ -29,7 +32,7 @@ META = {'title': 'A playing tape presents each TAP block as the standard loader 
                '0..32); a threshold decoder recovers exactly the block bytes. The model is tied to the Rust code on '
                'every run by an exact edge-time correspondence under seeded schedules, the executable waveform spec '
                'adjudicating; the real 48K ROM loads sample tapes in real time and is compared with LD-BYTES spec and '
-               'fast loading.',
+               'fast loading, and the EAR waveform is sampled through the real machine under arbitrary CPU activity.',
  'level_note': COMMON_NOTE + ' Partial: the ROM loader\'s own edge-timing loop is not modelled; "the ROM loader loads any '
                'tape" rests on the threshold-decoder theorem plus sampled real-ROM runs.',
  'timeout_s': {'quick': 900, 'thorough': 6 * 3600}}
